@@ -155,6 +155,12 @@ def setRootObj (w : World) (k : Nat) (a : Obj) : OOut Unit :=
       | .ok _ g' => .ok () { w with g := g' }
       | .exc g' => .exc .bpp { w with g := g' }
 
+/-- `GlobalGraph::operator=` onto the observed graph (GlobalGraph.cpp:41-63, as repaired): the content
+becomes that of `h`, the registered observers stay and are told that every former edge and node
+is gone (`notifyDeletedEdges(formerEdges); notifyDeletedNodes(formerNodes)`) -/
+def graphAssign (w : World) (h : G) : World :=
+  ({ w with g := { h with pending := w.g.pending ++ [.edges w.g.allEdges, .nodes w.g.allNodes] } } : World).deliver
+
 /-- `getRoot()` (:714): the object of the graph's root, null when it has none -/
 def rootObj (w : World) (o : Obs) : Option Obj := o.nodeFromGid w.g.root
 
@@ -173,6 +179,8 @@ inductive WOpX where
   | assign (j k : Nat)
   | attach (k : Nat)
   | setRoot (k : Nat) (a : Obj)
+  /-- the observed graph is assigned the graph reached by the history `hist` from the empty graph -/
+  | graphAssign (d : Bool) (hist : List Op)
 deriving Repr
 
 namespace World
@@ -182,6 +190,7 @@ def stepX (w : World) : WOpX → World
   | .assign j k => (w.assign j k).world w
   | .attach k => (w.attach k).world w
   | .setRoot k a => (w.setRootObj k a).world w
+  | .graphAssign d hist => w.graphAssign { (Graph.empty d).run hist with pending := [] }
 
 def runX (w : World) (ops : List WOpX) : World := ops.foldl stepX w
 end World
